@@ -22,6 +22,14 @@ EXTERN_MODULE_PREFIXES = ("mypy", "griffe", "logging", "pathlib", "json", "inspe
                           "importlib", "__future__")
 
 
+def _is_literal_term(t):
+    if z3.is_string_value(t) or z3.is_int_value(t) or z3.is_true(t) or z3.is_false(t):
+        return True
+    if z3.is_app(t) and t.sort() == V and t.decl().kind() == z3.Z3_OP_DT_CONSTRUCTOR:
+        return all(_is_literal_term(c) for c in t.children())
+    return False
+
+
 def _int_literals(t):
     out = set()
     stack = [t]
@@ -40,11 +48,14 @@ def _int_literals(t):
 class Ctx:
     """Global verification context for one run."""
 
-    def __init__(self, src, registry=None, feas_timeout_ms=250):
+    def __init__(self, src, registry=None, feas_timeout_ms=150):
         self.src = src
         self.ct = ClassTable(src)
         self.registry = registry           # contracts registry (pyvc.contracts.Registry)
         self.obligations: list[Obligation] = []
+        self._obcount = {}
+        self._light_cache = {}
+        self.spec_cache = {}
         self.fresh = itertools.count(1)
         self.alloc = itertools.count(ALLOC_BASE)
         self.feas_timeout_ms = feas_timeout_ms
@@ -69,6 +80,7 @@ class Ctx:
         self.seqset_terms = []
         self.sort_terms = []
         self.world_mi = None
+        self.rec_schemas = {}              # named record shapes: name -> {key: annotation text | parsed}
         self.set_origin = {}               # concrete sid -> sequence the set was built from
 
     # ---------------------------------------------------------------- fresh symbols
@@ -120,6 +132,8 @@ class Ctx:
                 return ("tuple", [])
             if n == "rec":
                 return ("rec", None)
+            if n in self.rec_schemas:
+                return ("rec", n)
             ci = self.class_by_name(mi, n)
             if ci is not None:
                 return ("obj", ci)
@@ -271,6 +285,29 @@ class Ctx:
         m = importlib.import_module(modname)
         for k, v in getattr(m, "SCHEMA", {}).items():
             self.ext_schema[k] = dict(v)
+        for k, v in getattr(m, "RECORDS", {}).items():
+            self.rec_schemas[k] = dict(v)
+
+    def rec_field_ann(self, rec_ann, key):
+        """Declared shape of rec[key] for a record annotation ('rec', dict | schema name | None)."""
+        if rec_ann is None or rec_ann[0] == "union":
+            if rec_ann is not None:
+                for a in rec_ann[1]:
+                    if a[0] == "rec":
+                        return self.rec_field_ann(a, key)
+            return None
+        if rec_ann[0] != "rec" or rec_ann[1] is None:
+            return None
+        sch = rec_ann[1]
+        if isinstance(sch, dict):
+            return sch.get(key)
+        d = self.rec_schemas.get(sch, {})
+        a = d.get(key)
+        if isinstance(a, str):
+            import ast as _ast
+            a = self.parse_ann(self.world_mi, _ast.parse(a, mode="eval").body)
+            d[key] = a if a is not None else ("any",)
+        return None if a == ("any",) else a
 
     def field_ann_guess(self, field):
         anns = []
@@ -287,7 +324,10 @@ class Ctx:
                 a = sch[attr]
                 if isinstance(a, str):
                     import ast as _ast
-                    a = self.parse_ann(self.world_mi, _ast.parse(a, mode="eval").body)
+                    node = _ast.parse(a, mode="eval").body
+                    a = self.parse_ann(self.world_mi, node)
+                    if a is None and c.mi is not None:
+                        a = self.parse_ann(c.mi, node)
                     sch[attr] = a if a is not None else ("any",)
                 return None if a == ("any",) else a
         return None
@@ -377,12 +417,31 @@ class Ctx:
         return self.fn_ids[target]
 
     # ---------------------------------------------------------------- feasibility / branching
+    def _light(self, f):
+        """Is this hypothesis cheap enough for the pruning solver? (dropping hypotheses only keeps more paths)"""
+        i = f.get_id()
+        r = self._light_cache.get(i)
+        if r is None:
+            sx = f.sexpr()
+            r = len(sx) < 1500 and "str." not in sx and "seq." not in sx and "re." not in sx
+            self._light_cache[i] = r
+        return r
+
     def feasible(self, path, cond=None):
+        """Pruning check: satisfiable under the branch conditions and the cheap hypotheses (a conservative
+        subset: string/sequence facts are left to the final proof obligations)."""
         self.stats["feas_checks"] += 1
         s = z3.Solver()
         s.set("timeout", self.feas_timeout_ms)
-        s.add(*path.pc, *path.facts)
+        for h in path.pc:
+            if self._light(h):
+                s.add(h)
+        for h in path.facts:
+            if self._light(h):
+                s.add(h)
         if cond is not None:
+            if not self._light(cond):
+                return True
             s.add(cond)
         return s.check() != z3.unsat
 
@@ -424,9 +483,25 @@ class Ctx:
                 return simp(t.decl()(*ch))
         return t
 
+    def _learn_eq(self, path, cond):
+        """Remember `term == literal` facts for syntactic pruning of later branches."""
+        stack = [cond]
+        while stack:
+            c = stack.pop()
+            if z3.is_and(c):
+                stack.extend(c.children())
+            elif z3.is_eq(c):
+                a, b = c.arg(0), c.arg(1)
+                for x, y in ((a, b), (b, a)):
+                    if _is_literal_term(y) and not _is_literal_term(x):
+                        path.eqs.append((x, y))
+                        break
+
     def branch(self, path, cond, label=""):
         """Yield (path, bool) for each feasible outcome of a Bool condition."""
         cond = simp(cond)
+        if path.eqs and not (z3.is_true(cond) or z3.is_false(cond)):
+            cond = simp(z3.substitute(cond, *path.eqs))
         if z3.is_true(cond):
             yield path, True
             return
@@ -446,6 +521,7 @@ class Ctx:
         q = path.fork()
         q.pc.append(cond)
         q.trace.append((label, True))
+        self._learn_eq(q, cond)
         yield q, True
         r = path.fork()
         r.pc.append(simp(z3.Not(cond)))
@@ -469,8 +545,11 @@ class Ctx:
 
     def _obname(self, clause):
         base = f"{self.current.prop}/{self.current.short}/{clause}" if self.current else clause
-        n = sum(1 for o in self.obligations if o.name.split("#")[0] == base)
-        return f"{base}#{n}"
+        sfx = getattr(self.current, "suffix", "") if self.current else ""
+        key = f"{base}#{sfx}"
+        n = self._obcount.get(key, 0)
+        self._obcount[key] = n + 1
+        return f"{base}#{sfx}{'.' if sfx else ''}{n}"
 
     def safety(self, path, goal, what, where=""):
         """A run-time error that must be impossible; execution continues assuming it did not happen."""
@@ -575,7 +654,9 @@ class Ctx:
         path.heap[field] = simp(z3.Store(arr, oid, val.t))
 
     # ---------------------------------------------------------------- sets
-    def set_arr(self, path, v: Val):
+    def set_arr(self, path, v):
+        if hasattr(v, "arr") and not isinstance(v, Val):
+            return v.arr       # module-level constant set
         sid = simp(V.sid(v.t))
         if z3.is_int_value(sid) and sid.as_long() in path.sets:
             return path.sets[sid.as_long()]
@@ -604,6 +685,12 @@ class Ctx:
         c = smt.ctor(simp(v.t))
         if c:
             return c
+        if v.ann is not None and v.ann[0] == "union":
+            arms = [a for a in v.ann[1] if a[0] != "none"]
+            kinds = {self.kind(Val(v.t, a)) for a in arms}
+            if len(kinds) == 1:
+                return kinds.pop()
+            return None
         if v.ann is not None:
             return {"str": "VStr", "int": "VInt", "bool": "VBool", "none": "VNone", "list": "VList",
                     "tuple": "VTuple", "set": "VSet", "frozenset": "VSet", "dict": "VDict", "rec": "VRec",
